@@ -287,7 +287,13 @@ func (p *Pipe) S2CDelivered() int64 { return p.s2c.r }
 // while holding the connection open).
 //
 //go:norace
-func (p *Pipe) StallS2CFrom(off int64) { p.s2c.stallAt = off }
+func (p *Pipe) StallS2CFrom(off int64) {
+	// a direction that has gone dead stays dead: a later stall never revives bytes that an
+	// earlier one swallowed
+	if p.s2c.stallAt < 0 || off < p.s2c.stallAt {
+		p.s2c.stallAt = off
+	}
+}
 
 // DripS2CFrom delivers server bytes from offset off at one byte per dt.
 //
@@ -297,7 +303,11 @@ func (p *Pipe) DripS2CFrom(off int64, dt int64) { p.s2c.dripAt = off; p.s2c.drip
 // StallC2SFrom: the server stops reading at offset off.
 //
 //go:norace
-func (p *Pipe) StallC2SFrom(off int64) { p.c2s.stallAt = off }
+func (p *Pipe) StallC2SFrom(off int64) {
+	if p.c2s.stallAt < 0 || off < p.c2s.stallAt {
+		p.c2s.stallAt = off
+	}
+}
 
 // StallBegan returns the virtual instants at which the first suppressed byte was written in each
 // direction (-1: the stall never took effect).
